@@ -17,11 +17,12 @@ for D in seeded/s[0-9][0-9]_C[0-9][0-9]; do
   I=$((I+1)); [ $((I % NSHARDS)) -eq $SHARD ] || continue
   SID=$(basename $D); P=${SID#*_}
   git -C $WT checkout -q -- . 
-  if ! git -C $WT apply --check $PWD/$D/patch.diff 2>/dev/null; then
-    if ! git -C $WT apply -3 $PWD/$D/patch.diff >/dev/null 2>&1; then git -C $WT checkout -q -- . ; git -C $WT reset -q --hard; echo -e "$SID\t$P\t-\tn/a (patch does not apply to HEAD)" >> "$OUT"; continue; fi
+  PATCH=$PWD/$D/patch.diff; [ -f $PWD/$D/patch_rebased.diff ] && PATCH=$PWD/$D/patch_rebased.diff
+  if ! git -C $WT apply --check $PATCH 2>/dev/null; then
+    if ! git -C $WT apply -3 $PATCH >/dev/null 2>&1; then git -C $WT checkout -q -- . ; git -C $WT reset -q --hard; echo -e "$SID\t$P\t-\tn/a (patch does not apply to HEAD)" >> "$OUT"; continue; fi
     git -C $WT reset -q   # keep the working-tree change, drop the index
   else
-    git -C $WT apply $PWD/$D/patch.diff
+    git -C $WT apply $PATCH
   fi
   for S in $SEEDS; do
     R=$(VERIF_REPO=$WT VERIF_SEED=$S VERIF_SEARCH_S=60 timeout 1500 ./check $P quick 2>&1 | grep -E "VIOLATION|infrastructure" | head -1)
